@@ -71,7 +71,7 @@ func startForKill(c killCase, bin, tmp string, managed bool) (*startedPlugin, er
 	case "ignore":
 		pc.AfterServe = "hang"
 	case "failedhandshake":
-		pc.MockLine, pc.MockThen = "1|999|unix|/nonexistent|netrpc|\n", "idle"
+		pc.MockLine, pc.MockThen = "1|999|unix|/nonexistent|netrpc|\nmore plugin output on stdout\nand more\n", "idle"
 	}
 	launch := c.Launch
 	if launch == "reattach" {
